@@ -45,10 +45,14 @@ RULES = {
 }
 
 
+_PRINTERS = {}
+
+
 def _print(case):
     text, want_level = case
     from calmjs.parse.parsers.es5 import parse
     from calmjs.parse.unparsers.es5 import pretty_print, Unparser
+    from calmjs.parse.unparsers.es5 import pretty_printer
     from calmjs.parse import rules
     from calmjs.parse.ruletypes import Indent
     try:
@@ -75,14 +79,29 @@ def _print(case):
                 level = inst._level if again == out else None
             except Exception:
                 level = None
+        # C20 also holds for a printer object that is reused, also after a
+        # rendering that was abandoned midway
+        reused = None
+        if want_level == 'reuse':
+            pr = _PRINTERS.get(ind)
+            if pr is None:
+                pr = _PRINTERS[ind] = pretty_printer(ind)
+            try:
+                g = pr(tree)
+                for _ in range(7):
+                    next(g, None)
+                del g
+                reused = ''.join(c.text for c in pr(tree))
+            except Exception as e:
+                reused = 'EXC %r' % (e,)
         try:
             tree2 = parse(out)
             t2 = project.project(tree2)
             same = project.first_diff(t1, t2)
             fix = pretty_print(tree2, indent_str=ind) == out
-            outs.append(('ok', out, same, fix, level))
+            outs.append(('ok', out, same, fix, level, reused))
         except Exception as e:
-            outs.append(('reparse-exc', out, repr(e), None, level))
+            outs.append(('reparse-exc', out, repr(e), None, level, reused))
     return ('ok', t1, outs)
 
 
@@ -136,7 +155,7 @@ def main_for(prop, tier, seed, replay=None):
             gaps = layout_variant(s, rng, 0.15) if v else None
             text = concretise(s, seed=rng.randrange(1000), pools='rich',
                               gaps=gaps)
-            work.append((text, True))
+            work.append((text, 'reuse' if prop == 'C20' else True))
             sents.append(_freeze(s))
     res = impl.pmap(_print, work, chunk=100)
     rep.mark('printed')
@@ -194,6 +213,19 @@ def main_for(prop, tier, seed, replay=None):
                           {'indent': ind, 'check_end': True,
                            'level': o[4]}))
             info[cid] = (text, ind, sent)
+            if prop == 'C20' and o[5] is not None and o[5] != out:
+                # a second record: what the reused printer produced
+                cid = len(cases)
+                items = printing.expected_items(sent)
+                aligned = printing.align(items, o[5])
+                printing.rebalance_semicolons(items)
+                pres = [x for x in items if x.present]
+                for a, b in zip(pres, pres[1:]):
+                    pairs.add(printing.pair_key(a, b))
+                cases.append((cid, items, aligned, o[5],
+                              {'indent': ind, 'check_end': True, 'level': 0}))
+                info[cid] = (text + '  [printer object reused after an '
+                             'abandoned rendering]', ind, sent)
     rep.notes['skipped'] = skipped
     fuse = printing.fuse_verdicts(pairs, rep)
     rep.notes['distinct_adjacent_pairs'] = len(pairs)
